@@ -501,6 +501,11 @@ def r4_player_two(ctx, chk, rule="C03.4"):
             continue
         conj = cond[1] if cond[0] == "and" else (cond,)
         pointed = [c for c in conj if c[0] == "cmp" and c[1] == "notin"]
+        per_state = l.kind == "for" and (l.source == slist or (l.source[0] == "call" and l.source[1] == "enumerate" and l.source[2] and l.source[2][0] == slist))
+        if not pointed and not per_state:
+            # not the sweep over the state list: a work list of states found to be unreferenced (reference counts, ...) is another design
+            chk.undecided(rule, f.where(l.node), "transitions are cleared inside `%s`, not in a sweep over the state list: why the cleared state is unreferenced is not traced" % norm_stmt(l.node)[:60])
+            continue
         if not pointed:
             chk.violation(rule, f.where(l.node), "transitions are cleared under `%s`, without the 'nobody points to this state' test: a Player-2 state in use loses its transitions" % show(cond),
                           expected="guard includes `idx not in pointed-to set`", found=show(cond), construct="prune_states clear unguarded")
